@@ -13,7 +13,7 @@ print('script',json.dumps(c.get('script')))
 print('delays', c.get('delays'))
 h=j.get('history') or {}
 print('submitted',h.get('submitted'))
-print('outcomes',[(o['idx'],'ok' if o['ok'] else o.get('err','')[:40],o['part'],o['offset']) for o in h.get('outcomes',[])])
+print('outcomes',[(o['idx'],'ok' if o['ok'] else o.get('err','')[:40],o['part'],o['offset']) for o in (h.get("outcomes") or [])])
 print('logs', h.get('logs'))
 n=int(sys.argv[2]) if len(sys.argv)>2 else 60
 for e in h.get('events',[])[:n]:
